@@ -87,6 +87,32 @@ mut("json_path_index_off_by_one_when_nested", "src/errors/json.rs",
     "            ValuePointerRef::Index { index, prev } => format!(\"{}[{}]\", rec(*prev), if matches!(prev, ValuePointerRef::Index { .. }) { index + 1 } else { index }),\n        }\n    }\n    match location {\n        ValuePointerRef::Origin => String::new(),\n        _ => {\n            format!(\"{article} `{}`\", rec(location))",
     ["C14"])
 
+
+mut("aweb_json_error_as_422", "src/actix_web/serde_json.rs",
+    "                Err(e) => Err(e)?,",
+    "                Err(e) => Err(actix_web::error::ErrorUnprocessableEntity(e.to_string()))?,",
+    ["C20"])
+mut("aweb_json_noop_waker", "src/actix_web/serde_json.rs",
+    "        let res = ready!(fut.poll(cx));",
+    "        let _ = cx;\n        let noop = futures::task::noop_waker();\n        let res = ready!(fut.poll(&mut Context::from_waker(&noop)));",
+    ["C20"])
+mut("jsonerror_response_status", "src/actix_web/serde_json.rs",
+    "        actix_web::http::StatusCode::BAD_REQUEST",
+    "        actix_web::http::StatusCode::UNPROCESSABLE_ENTITY",
+    ["C20"])
+mut("query_trims", "src/actix_web/query_parameters.rs",
+    "let value = Query::<serde_json::Value>::from_query(query_str)?;",
+    "let value = Query::<serde_json::Value>::from_query(query_str.trim_start_matches('+'))?;",
+    ["C20"])
+mut("axum_rejection_body", "src/axum/serde_json.rs",
+    "        (StatusCode::BAD_REQUEST, self.to_string()).into_response()",
+    "        (StatusCode::BAD_REQUEST, format!(\"{}\\n\", self)).into_response()",
+    ["C20"])
+mut("axum_json_rejection_swallowed_status", "src/axum/serde_json.rs",
+    "            AxumJsonRejection::JsonRejection(e) => e.into_response(),",
+    "            AxumJsonRejection::JsonRejection(e) => (StatusCode::BAD_REQUEST, e.body_text()).into_response(),",
+    ["C20"])
+
 # fix up the placeholder: accepted list built from all field names
 for m in M:
     if m["name"] == "accepted_lists_skipped":
